@@ -104,7 +104,10 @@ def parse_unit(path):
                 cur_take.contract_file = rest
                 cur_sec = None
             elif d == "mutant":
-                parts = [p.strip() for p in rest.split("|")]
+                parts = [p.strip() for p in re.split(r"(?<!\\)\s\|(?=\s|$)", " " + rest)]
+                parts = [("" if x == "|" else x).replace("{{PIPE}}", "|") for x in parts]
+                while len(parts) < 5:
+                    parts.append("")
                 unit["mutants"].append(parts)
             elif cur_take is not None:
                 cur_sec = (d + " " + rest).strip()
@@ -364,7 +367,7 @@ def run_verus(path, rlimit=None, seed=None, multiple_errors=None, timeout=600):
     return {"cmd": " ".join(cmd), "rc": p.returncode, "json": js, "diags": diags, "stderr": p.stderr, "wall": wall}
 
 
-LABEL_RE = re.compile(r"\[([A-Za-z0-9_.:\-]+)\]\s*$")
+LABEL_RE = re.compile(r"\[([A-Za-z0-9_.:@\-]+)\]\s*$")
 FN_RE = re.compile(r"^\s*(?:pub(?:\([a-z]+\))?\s+)?(?:(?:proof|spec|exec|open|closed|broadcast|uninterp|axiom)\s+)*fn\s+(\w+)")
 
 
@@ -665,7 +668,7 @@ def decide(prop, tier, seed):
             try:
                 r = verify_unit(p, mutant=m)
                 killed = bool(r["failures"])
-                return {"unit": os.path.basename(p), "mutant": m[0], "killed": killed,
+                return {"unit": os.path.basename(p), "mutant": m[0], "killed": killed, "rlimit": bool(r["rlimit"]),
                         "by": sorted({f["label"] for f in r["failures"]})[:4],
                         "tool_error": r["tool_errors"][0][0] if r["tool_errors"] else None}
             except Undecided as e:
@@ -883,6 +886,9 @@ def main():
                         bad += 1
                     elif r["failures"]:
                         print(f"mutant {m[0]}: killed by {sorted({obligation_id(u['name'], f) for f in r['failures']})}")
+                    elif r["rlimit"]:
+                        print(f"mutant {m[0]}: UNDECIDED (rlimit) — would be exit 2, not a violation")
+                        bad += 1
                     else:
                         print(f"mutant {m[0]}: SURVIVED (weak contract)")
                         bad += 1
